@@ -72,6 +72,9 @@ func checkC19(r *harness.Run) harness.Coverage {
 		{"avg(@)", "valid-may-fail"}, {"sum(@)", "valid-may-fail"}, {"keys(@)[0]", "valid-may-fail"}, {"'100%'", "valid"}, {"join('%', keys(@))", "valid-may-fail"}, {"to_number(@)", "valid"}, {" a ", "valid"}, {"\"a\"", "valid"},
 		// results that are false-like or empty at the top level (the exit status says "evaluated", not "truthy")
 		{"`false`", "valid"}, {"a == b", "valid"}, {"!@", "valid"}, {"`0`", "valid"}, {"''", "valid"}, {"a && b", "valid"}, {"@ == `false`", "valid"}, {"`\"x\\u0001y\\u007f\\u2028\"`", "valid"},
+		// white space INSIDE tokens is content, not layout: raw TAB / LF / CR in raw strings (valid), in quoted identifiers and JSON literals (not JSON: syntax errors)
+		{"'a\tb'", "valid"}, {"'x\ny' == @", "valid"}, {"contains(to_string(@), 'a\tb')", "valid"}, {"'l1\r\nl2'", "valid"}, {"[ a ,\n\tb ]", "valid"}, {"a\n|\n@", "valid"},
+		{"\"a\tb\"", "syntax"}, {"`\"a\nb\"`", "syntax"}, {"\"a\rb\"", "syntax"}, {"{\"k\tk\": a}", "syntax"},
 		{"", "syntax"}, {"a.", "syntax"}, {"a[", "syntax"}, {"#", "syntax"}, {"a = b", "syntax"}, {"'unclosed", "syntax"}, {"`{bad`", "syntax"}, {"a b", "syntax"}, {"[0", "syntax"}, {"@(a)", "syntax"}, {"f(a b)", "syntax"},
 		{"a\u0080", "syntax"}, {"\xff", "syntax"}, {"a | ", "syntax"}, {"{a:", "syntax"},
 		{"nosuch(@)", "eval-error"}, {"abs('x')", "eval-error"}, {"length(@, @)", "eval-error"}, {"@[::0] || abs('x')", "eval-error"}, {"[a, nosuch(b)]", "eval-error"}, {"merge('a')", "eval-error"},
